@@ -24,6 +24,7 @@ class PathSummary:
         self.ret_form = None
         self.kind = "return"  # return | raise | continue | break
         self.lines = []
+        self.stmts = []  # statement nodes on the path, in order
         self.calls = []  # expression-statement calls other than logging
         self.yields = []  # yielded expressions
         self.undecided = []
@@ -56,8 +57,9 @@ def _expand_test(e, pol, fi, env, ps, state, data_eq=None):
     if isinstance(e, ast.Constant):
         return
     # inline a name bound once to a comparison
-    if isinstance(e, ast.Name) and fi is not None:
-        v = single_def(fi, e.id)
+    ffi = fi if fi is not None else getattr(env, "fi", None)
+    if isinstance(e, ast.Name) and ffi is not None:
+        v = single_def(ffi, e.id)
         if isinstance(v, (ast.Compare, ast.BoolOp)):
             e = v
     if isinstance(e, ast.Compare) and len(e.ops) > 1:
@@ -104,8 +106,9 @@ def _expand_alts(e, pol, fi, env, state, data_eq=None):
     one = lambda lits=(), opq=(): [(set(lits), set(opq))]
     if isinstance(e, ast.Constant):
         return one()
-    if isinstance(e, ast.Name) and fi is not None:
-        v = single_def(fi, e.id)
+    ffi = fi if fi is not None else getattr(env, "fi", None)
+    if isinstance(e, ast.Name) and ffi is not None:
+        v = single_def(ffi, e.id)
         if isinstance(v, (ast.Compare, ast.BoolOp)):
             e = v
     if isinstance(e, ast.UnaryOp) and isinstance(e.op, ast.Not):
@@ -176,6 +179,7 @@ def summarize(fi=None, body=None, env=None, data_eq=None, field_roots=(), limit=
                 if n.kind == "stmt":
                     a = n.ast
                     ps.lines.append(a.lineno)
+                    ps.stmts.append(a)
                     if isinstance(a, ast.Return):
                         ps.ret = a.value
                         if a.value is not None:
